@@ -262,6 +262,92 @@ pub fn scenario(r: &mut Report, p: &Params) {
         }
         judge(r, &case, kind, target, &table, &signed_table, &returned, &lt, p.servers > 20, mix(mix(p.seed, li as u64), w.order_hash()));
     }
+    // === writes served from the lookup cache (no lookup of their own) ===
+    if net.nodes.len() >= 2 {
+        use futures_lite::StreamExt;
+        // (A) a mutable item is stored at seq S; another node asks "anything newer than S?" - every holder
+        // answers "no" (id, token, nodes, seq, no value) - and then writes seq S+1 from that lookup's result:
+        // the write goes to the closest token-bearing answerers of that lookup
+        let signer = dht::SigningKey::from_bytes(&rng.array::<32>());
+        let salt: Option<Vec<u8>> = if rng.bool() { Some(rng.blob(1, 8)) } else { None };
+        let s0 = 5 + rng.below(50) as i64;
+        let item = dht::MutableItem::new(&signer, b"stored first", s0, salt.as_deref());
+        let target = crate::sha1::mutable_target(item.key(), salt.as_deref());
+        let wi = rng.usize(net.nodes.len());
+        let stored = w.block_on(net.nodes[wi].adht.put_mutable(item.clone(), None), 120 * SEC).map(|x| x.is_ok()).unwrap_or(false);
+        let origin: &Node = if rng.bool() { &fresh } else { &net.nodes[(wi + 1) % net.nodes.len()] };
+        if stored {
+            let _ = snapshot(&w, origin);
+            w.run_for(3 * SEC);
+            w.set_trace(TraceLevel::Full);
+            w.clear_trace();
+            let a = origin.adht.clone();
+            let (k, sl) = (*item.key(), salt.clone());
+            let bound_seq = s0 + *rng.pick(&[0i64, 0, 3]);
+            let seen = w.block_on(async move { a.get_mutable(&k, sl.as_deref(), Some(bound_seq)).count().await }, 120 * SEC);
+            let item2 = dht::MutableItem::new(&signer, b"written from the cached lookup", s0 + 1, salt.as_deref());
+            let put = w.block_on(origin.adht.put_mutable(item2, Some(s0)), 120 * SEC);
+            let trace = w.trace_from(0);
+            w.set_trace(TraceLevel::Off);
+            w.clear_trace();
+            let lt = analyse(&trace, origin.addr, "get", &target);
+            let case = json!({"class":"lookup","seed":p.seed.to_string(),"servers":p.servers,"plan":p.plan,"lookups":p.lookups,"part":"put-after-a-newer-than-lookup","target":crate::bencode::hex(&target),"origin":origin.addr.to_string()});
+            if seen.is_none() || put.is_none() {
+                r.violation("lookup/did-not-complete", "lookup did not complete within 120 virtual seconds in a loss-free network", case.clone(), json!({}));
+            } else if !lt.queried.is_empty() {
+                let resp = dedup_sorted(lt.responders.clone(), &target);
+                let wrote: HashSet<SocketAddrV4> = lt.put_targets.iter().copied().collect();
+                let kk = wrote.len();
+                let prefix: HashSet<SocketAddrV4> = resp.iter().take(kk).map(|n| n.1).collect();
+                // two lookups in the trace would mean the put did not use the cache; then the union of answerers still bounds it
+                if wrote != prefix {
+                    r.violation("put/write-set-not-closest-responders", "the write went to a set that is not the closest responders", case.clone(), json!({"wrote": wrote.iter().map(|a| a.to_string()).collect::<Vec<_>>(), "closest_responders": resp.iter().take(20).map(show).collect::<Vec<_>>(), "after": "get_mutable(.., more_recent_than) answered with 'no more recent value'"}));
+                } else if kk < resp.len().min(20) {
+                    r.violation("put/write-set-too-small", "the write went to fewer than min(20, responders) nodes", case.clone(), json!({"wrote": kk, "responders": resp.len(), "after": "get_mutable(.., more_recent_than) answered with 'no more recent value'"}));
+                }
+                r.count("puts_after_a_newer_than_lookup");
+            }
+        }
+        // (B) a write issued right at the five-minute mark of the cached lookup: while the cache entry is used at
+        // all, the write goes to every node that lookup reported
+        let value = rng.blob(4, 40);
+        let t2 = crate::sha1::immutable_target(&value);
+        let origin: &Node = if rng.bool() { &fresh } else { &net.nodes[rng.usize(net.nodes.len())] };
+        w.set_trace(TraceLevel::Full);
+        w.clear_trace();
+        let reported = w.block_on(origin.adht.get_closest_nodes(Id::from(t2)), 120 * SEC);
+        let trace = w.trace_from(0);
+        w.clear_trace();
+        w.set_trace(TraceLevel::Off);
+        let (_, delivers) = sends_and_delivers(&trace);
+        let times: Vec<u64> = delivers.iter().filter(|d| d.to == origin.addr && d.k.y == b'r' && d.k.res_bytes("token").is_some()).map(|d| d.t).collect();
+        if let (Some(reported), Some(tf), Some(tl)) = (reported, times.iter().min().copied(), times.iter().max().copied()) {
+            let at = tf + 300 * SEC + (tl - tf) / 2 + MS;
+            if reported.len() >= 2 && tl > tf && w.now() < at {
+                w.run_to(at);
+                w.set_trace(TraceLevel::Full);
+                w.clear_trace();
+                let put = w.block_on(origin.adht.put_immutable(&value), 120 * SEC);
+                let trace = w.trace_from(0);
+                w.set_trace(TraceLevel::Off);
+                w.clear_trace();
+                let lt = analyse(&trace, origin.addr, "get", &t2);
+                let case = json!({"class":"lookup","seed":p.seed.to_string(),"servers":p.servers,"plan":p.plan,"lookups":p.lookups,"part":"put-at-the-five-minute-mark-of-the-cached-lookup","target":crate::bencode::hex(&t2),"origin":origin.addr.to_string()});
+                if put.is_none() {
+                    r.violation("lookup/did-not-complete", "put did not complete within 120 virtual seconds in a loss-free network", case.clone(), json!({}));
+                } else if lt.queried.is_empty() {
+                    let wrote: HashSet<SocketAddrV4> = lt.put_targets.iter().copied().collect();
+                    let want: HashSet<SocketAddrV4> = reported.iter().map(|n| n.address()).collect();
+                    if wrote != want {
+                        r.violation("put/cached-write-set-not-the-latest-closest-responders", "a put served from the cached lookup did not go to exactly the nodes that lookup reported", case.clone(), json!({"wrote": wrote.len(), "reported": want.len(), "missing": want.difference(&wrote).map(|a| a.to_string()).collect::<Vec<_>>(), "put_at_ms_after_first_answer": (at - tf) / MS}));
+                    }
+                    r.count("cached_puts_at_the_five_minute_mark");
+                } else {
+                    r.count("puts_at_the_five_minute_mark_with_a_fresh_lookup");
+                }
+            }
+        }
+    }
     if w.stuck() {
         r.inconclusive("scheduler watchdog fired");
     }
